@@ -28,6 +28,7 @@ theorem inv1_init (db : Db C R D) : Inv1 (init db : S C R W D) := by
 def Event.isCode : Event R W D → Bool
   | .call _ c => c.isCode
   | .step _ => true
+  | .spur _ _ => true
 
 /-- effects of a micro-step that is not a lock operation leave the committed state alone unless the thread
 holds the write guard -/
@@ -501,6 +502,13 @@ theorem inv1_next (s : S C R W D) (e : Event R W D) (he : e.isCode = true) (h : 
     · exact h
     · rename_i i rest hp
       exact inv1_exec ops s t i rest h hp
+  | spur t u =>
+    simp only [next]
+    split
+    · split
+      · exact inv1_abort s t .busy h
+      · exact h
+    · exact h
 
 theorem inv1_run (evs : List (Event R W D)) (s : S C R W D) (he : ∀ e ∈ evs, e.isCode = true) (h : Inv1 s) :
     Inv1 (run ops s evs) := by
